@@ -59,4 +59,15 @@ PROPS = {
         "exhaustive": {"quick": False, "thorough": True},
         "floor": {"quick": 20000, "thorough": 500000},
     },
+    "C03": {
+        "modes": ["dbg"],
+        "level": "exploration",
+        "technique": "runtime monitoring: reference RDP server (reactive, in-process TLS + CredSSP/NTLM) with strict parsers; offline checker over the recorded event log (order, dependencies via consumed-byte clock, identifiers)",
+        "level_text": "Every case runs the real client end to end - Connector::connect over real TLS (OpenSSL server state machine in memory) with or without CredSSP/NTLMv2, or layer by layer on a plain transport - against an independent reference server whose profile (user id, share id, version, GCC optional fields/extra blocks/order, domain parameters, licence variant, capability sets, reactivations) is generated. The server logs each strictly parsed client frame with the number of server bytes the client had consumed; an offline checker compares the log with the mandated sequence, the reply dependencies and the assigned identifiers, and requires the disconnect ultimatum on shutdown. Thorough sweeps every assignable user id.",
+        "level_note": "Trusted: refs::proto / refs::ntlm / refs::cssp / server.rs (written from the specifications; NTLM primitives checked against MS-NLMP test vectors), OpenSSL. Assumed conforming-server envelope: I/O channel id 1003, user id not 1002/1003, NTLM CHALLENGE carries a Version field, CredSSP messages fit one read, client names/credentials ASCII here (Unicode is C04's subject).",
+        "rule": ("cases = (connector configuration, server profile, reactivation share ids, transport plain|tls, certificate key type RSA-2048/3072/EC-P256, TLS 1.2 only or 1.3); classes: random profiles on the plain transport, TLS with SSL or Hybrid(NLA) selection, user-id sweep. A case is non-trivial when connect succeeded (the whole sequence was then checked); distinct = hash of the case descriptor."),
+        "assumptions": ["a conforming server answers each request before the client may proceed; the reactive server does exactly that, so 'sent only after the reply it depends on' is checked through the consumed-byte counter"],
+        "exhaustive": {"quick": False, "thorough": False},
+        "floor": {"quick": 3000, "thorough": 50000},
+    },
 }
